@@ -66,6 +66,7 @@ pub fn checks() -> Vec<Check> {
             st("c01.s4", c01::s4, (0, 0), 3, "hooked packet capacity 1..9 x npoints 0..3c+1 x every catalogue type"),
             st("c01.s6", c01::s6, (0, 0), 3, "extension attribute of every catalogue type at the first/last prototype position x capacity {1,3} x npoints {0,1,4} x one or two registered extensions"),
             st("c01.s7", c01::s7, (0, 0), 3, "every attribute-group subset (3 coordinate kinds x 2^10 group/flag bits, invalid combinations skipped), 5 points, capacity 2"),
+            Stage { timeout_s: 60, ..st("c01.s8", c01::s8, (0, 0), 3, "scale: 255/256/257/300 point clouds in one file; 65535/65536/65537 points in one cloud; 300 and 70000 one-point data packets (hooked capacity 1)") },
             st("c01.s2deep", c01::s2deep, (0, 0), 3, "all writer programs of depth exactly 4 (quick: 20 736) / 5 (thorough: 248 832) over a 12-op sub-alphabet (4 blob sizes, 2 images, 6 clouds)"),
             st("c01.s5", c01::s5, (0, 0), 2, "two hooked-capacity clouds around a pad blob at all 255 residues x prototype pairs"),
         ],
@@ -124,6 +125,7 @@ pub fn checks() -> Vec<Check> {
         stages: vec![
             st("c04.lattice", c04::lattice, (3, 4), 3, "presence lattice of 34 optional fields (root, cloud, image): all subsets within <=3 (thorough <=4) toggles of all-absent and of all-present x 5 image kinds x 3 finalize modes"),
             st("c04.types", c04::types, (0, 0), 3, "every catalogue data type (floats with none / both / one-sided limits, ~190 integer and scaled-integer ranges) as coordinate, intensity, colour, time stamp and extension record: prototype read back unchanged"),
+            st("c04.scale", c04::scale, (0, 0), 3, "strings of 65535 / 70001 characters (ASCII, 2-byte, 4-byte, markup) in every string field x image kinds; 300 registered extensions"),
             st("c04.strings", c04::strings, (0, 0), 3, "every catalogue string (all strings of length <=3 over 12 XML-critical characters + 20 long ones) in every string field, rotated per field"),
             st("c04.floats", c04::floats, (0, 0), 3, "every float of the mini-float lattice + specials (NaN, inf, subnormals, extremes) in every float field x 3 projection kinds"),
         ],
@@ -160,6 +162,7 @@ pub fn checks() -> Vec<Check> {
             st("c06.product", c06::product, (0, 0), 3, "full product: blob length 0..=1023 x all 255 aligned start residues; payload source delivering in full / in halves / alternating (rotated)"),
             st("c06.long", c06::long, (0, 0), 3, "multi-page lengths 1020k+d (k=1..3, d=-20..20), 2^k-1, 2^k, 2^k+1 for k=12..17 and 20, 200000 x 16 residues x 3 fill patterns x 3 source read modes"),
             st("c06.neighbours", c06::neighbours, (0, 0), 3, "all programs of depth <=3 over blobs, every image kind with/without mask, cloud; unique payload patterns"),
+            st("c06.many", c06::many, (0, 0), 3, "255 / 256 / 257 / 300 images in one file (kinds rotating, mask on every third, unique payloads): every descriptor leads to its own data"),
             st("c06.tamper", c06::tamper, (0, 0), 3, "crafted descriptors (length -1,+1,+3,+4,+16,+17,+5000,2^63,2^64-1) x section-length patches x 51 residues x 7 lengths"),
         ],
         extra: None,
